@@ -73,9 +73,11 @@ def crash_site(res, cli):
 def signature(case, res, rec, fam, clause, at):
     cli = case['mode'] == 'cli'
     crashed = rec['rep']['crashed']
-    if crashed:
-        return '%s|run-aborted:%s' % (clause, crash_site(res, cli))
     ev = rec['ev']
+    # clauses evaluated at process exit / end of trace are consequences of an
+    # aborted run when there was one: name the abort site
+    if crashed and (at > len(ev) or (1 <= at <= len(ev) and ev[at - 1]['e'] == 'PX')):
+        return '%s|run-aborted:%s' % (clause, crash_site(res, cli))
     if 1 <= at <= len(ev):
         e = ev[at - 1]
         ctx = e['e']
